@@ -147,6 +147,21 @@ func (p *Peering) GetLinks() []Link {
 	return list
 }
 
+// WithRegisteredLink calls fn while the link registry is locked, but only if
+// the given link is still the registered link to its peer. It returns whether
+// fn was called. Routes via a link must be added this way, as removing a link
+// also removes the routes via its peer and nothing would remove them later.
+func (p *Peering) WithRegisteredLink(link frame.LinkAccessor, fn func()) bool {
+	p.linksLock.RLock()
+	defer p.linksLock.RUnlock()
+
+	if p.links[link.Peer()] != link {
+		return false
+	}
+	fn()
+	return true
+}
+
 // AddLink adds the link to the peering list.
 func (p *Peering) AddLink(link Link) error {
 	p.linksLock.Lock()
